@@ -644,6 +644,13 @@ func (p *esPkg) classifyAfterAssign(stack []ast.Node, si int, errVar types.Objec
 				continue
 			}
 			if !p.mentions(t, errVar) {
+				// `x, err := f()` in an inner scope followed by `err = write()`; the check after the block
+				// reads the OUTER variable of the same name: the write's error is never looked at
+				if b, ok := t.Cond.(*ast.BinaryExpr); ok && b.Op == token.NEQ && isNilIdent(b.Y) {
+					if id, ok := b.X.(*ast.Ident); ok && id.Name == errVar.Name() && p.info.Uses[id] != errVar {
+						return "ignored", "shadowed error variable: the following check reads an outer `" + id.Name + "`, not the one assigned here"
+					}
+				}
 				return "unknown", "unrelated if-statement between the call and the error check"
 			}
 			return "unknown", "if-statement on the error with an unsupported condition: " + p.src(t.Cond)
